@@ -602,6 +602,87 @@ enum En { option features.enum_type = CLOSED; A = 1; B = 2; }
 """,
     b"""message NoSyntax { optional int32 a = 1; }
 """,
+    # every index counter of the walk, with the other counters at different values at the same time
+    b"""edition = "2023";
+package idx.ed;
+message A {
+  reserved 1 to 5, 8;
+  reserved foo, bar;
+  int32 f1 = 10;
+  reserved 20;
+  reserved baz;
+  message N1 { reserved n1a; reserved 1, 2, 3; reserved n1b, n1c; int32 x = 4; }
+  enum E1 { reserved 5 to 9, 11; reserved EA, EB; E1_ZERO = 0; reserved 12; reserved EC; E1_ONE = 1; }
+  map<string, int32> m1 = 11;
+  message N2 { int32 y = 1; }
+  oneof o1 { int32 a1 = 12; string a2 = 13; }
+  extensions 100 to 110;
+  int32 f2 = 14;
+  oneof o2 { bool b1 = 15; }
+  extensions 120, 130 to 140;
+  enum E2 { E2_ZERO = 0; }
+  map<int32, N2> m2 = 16;
+  message N3 { reserved q; }
+  extend A { int32 xa = 100; }
+  extend A { int32 xb = 101; string xc = 102; }
+}
+message B { reserved b1; reserved 1; reserved b2, b3; reserved 2 to 3, 5; reserved b4; }
+enum TopE { reserved T_A; reserved 10 to 20; TOP_ZERO = 0; reserved T_B, T_C; reserved 30; }
+extend A { int32 t1 = 103; }
+message C { int32 c = 1; reserved 7, 8, 9; reserved only; }
+extend A { C t2 = 104; int32 t3 = 105; }
+service S1 { rpc M1 (A) returns (B); option deprecated = true; rpc M2 (stream A) returns (C) { option deprecated = true; } rpc M3 (C) returns (C); }
+service S2 { rpc M1 (B) returns (B); }
+""",
+    b"""syntax = "proto2";
+package idx.p2;
+import public "google/protobuf/empty.proto";
+import "google/protobuf/any.proto";
+import weak "google/protobuf/duration.proto";
+import public "google/protobuf/timestamp.proto";
+message A {
+  reserved "foo", "bar";
+  reserved 1 to 5, 8;
+  optional int32 f1 = 10;
+  reserved "baz";
+  reserved 20;
+  optional group G1 = 11 { optional int32 g = 1; reserved 5; reserved "gg"; }
+  message N1 { reserved 1; reserved "a", "b"; reserved 2, 3; }
+  map<string, int32> m1 = 12;
+  oneof o1 { int32 a1 = 13; group G2 = 14 { optional int32 h = 1; } string a2 = 15; }
+  enum E1 { reserved "EA"; reserved 5 to 9; E1_ZERO = 0; reserved "EB", "EC"; reserved 11, 12; }
+  message N2 { optional int32 y = 1; }
+  extensions 100 to 110;
+  repeated group G3 = 16 { optional N2 n = 1; }
+  extensions 120;
+  extend A { optional int32 xa = 100; optional group XG = 101 { optional int32 q = 1; } }
+  message N3 { }
+  extend A { optional string xb = 102; }
+  oneof o2 { bool b1 = 17; }
+}
+extend A { optional int32 t1 = 103; optional group TG = 104 { optional int32 r = 1; } }
+message B { optional google.protobuf.Empty e = 1; optional google.protobuf.Any a = 2; optional google.protobuf.Timestamp t = 3; }
+extend A { optional B t2 = 105; }
+enum TopE { reserved 10 to 20; reserved "T_A"; TOP_ZERO = 0; reserved 30; reserved "T_B", "T_C"; }
+service S1 { rpc M1 (A) returns (B); rpc M2 (A) returns (B) {} }
+""",
+    b"""syntax = "proto3";
+package idx.p3;
+message A {
+  reserved 1, 2;
+  reserved "x", "y", "z";
+  optional int32 f1 = 10;
+  oneof o1 { int32 a = 11; }
+  optional string f2 = 12;
+  map<int32, string> m = 13;
+  message N { reserved "n"; reserved 1 to 3; }
+  reserved 4 to 6;
+  reserved "w";
+  enum E { reserved 1; reserved "EA"; E_ZERO = 0; reserved 2 to 4; reserved "EB"; }
+  oneof o2 { N b = 14; }
+  N last = 15;
+}
+""",
     b"""syntax = "proto2";
 message One { optional int32 a = 1; }""",
 ]
@@ -697,6 +778,28 @@ def c23_oracle(src, out, lines):
                 if bytes.fromhex(d) not in deriv:
                     fails.append(("comment-not-source-text", "detached comment is not a combination of source comments",
                                   dict(mode=mode, index=i, loc=loc)))
+            # the element the path names is the one the span shows: names and numbers (single-token spans)
+            if "vn" in loc or "vi" in loc:
+                st, en = src.span_tokens(loc["s"])
+                if st is not None and st == en:
+                    text = src.ttext[st]
+                    if "vn" in loc:
+                        want = bytes.fromhex(loc["vn"])
+                        shown = text
+                        if text[:1] in (b'"', b"'") and text[-1:] == text[:1] and b"\\" not in text:
+                            shown = text[1:-1]
+                        if shown != want and shown.lower() != want:      # a group's field is named in lower case
+                            fails.append(("path-names-different-element", "the path leads to the name %r but the span shows %r" % (want, text),
+                                          dict(mode=mode, index=i, loc=loc)))
+                    else:
+                        try:
+                            t = text.decode()
+                            num = int(t, 16) if t[:2].lower() == "0x" else int(t, 8) if (len(t) > 1 and t[0] == "0") else int(t)
+                        except ValueError:
+                            num = None
+                        if num is not None and num != loc["vi"]:
+                            fails.append(("path-names-different-element", "the path leads to the number %d but the span shows %r" % (loc["vi"], text),
+                                          dict(mode=mode, index=i, loc=loc)))
         for i, why in out["badpaths"][mode]:
             fails.append(("path-names-no-element", why, dict(mode=mode, index=i, loc=locs[mode][i])))
     # extra comments: same locations, comments only added
